@@ -732,7 +732,14 @@ pub fn compare(pred: &Pred, out: &Outcome, pre: &RState, post: &Result<RState, S
     }
     let post = match post {
         Ok(p) => p,
-        Err(_) => return None, // malformed successor: C03's verdict, alpha undefined
+        // alpha undefined: the indexes of the real state disagree with each other, so no reference tree
+        // can equal it (C03 reports the same state under its own invariants)
+        Err(e) => {
+            if let Pred::Skip(_) = pred {
+                return None;
+            }
+            return Some(("tree:malformed".into(), format!("the resulting state is not a well-formed tree ({}), so it equals no reference tree", e)));
+        },
     };
     let no_wild = Wild::default();
     match pred {
